@@ -52,9 +52,13 @@ def templates(tier, seed):
             for idx in (False, True):
                 tds.append(dict(fam="for", body=b, n=n, idx=idx))
     for b in ("relh", "circ", "two0", "group0"):
-        tds.append(dict(fam="if", body=b))
-    if tier == "quick":
-        tds = sample_quota(tds, lambda t: (t["fam"],), {"count": 50, "while": 30, "until": 24, "for": 40, "if": 4}, seed)
+        for test in ("gt", "diff", "neg-const", "sum"):
+            tds.append(dict(fam="if", body=b, test=test))
+    for b in B:
+        for n in (1, 2, 3):
+            tds.append(dict(fam="count-var", body=b, n=n))
+        for k in (1, 2, 3):
+            tds.append(dict(fam="while-arith", body=b, k=k))
     return tds
 
 
@@ -77,7 +81,13 @@ def build(td, wrong=False):
         kb = alloc([(7, *V)])
         pre = f'<rect xy="[[{kb}]] 2" wh="3 4"/>'
         post = '<rect xy="^|h 1" wh="1"/>'
-        d0 = f'<svg>{pre}<if test="gt([[{ka}]], [[{ka + 1}]])">{body}</if>{post}</svg>'
+        tform = td.get("test", "gt")
+        # a condition is true iff its value is non-zero: arithmetic values (negative ones too) count as true
+        ttxt, test = {"gt": (f"gt([[{ka}]], [[{ka + 1}]])", gt(f"v{ka}", f"v{ka + 1}")),
+                      "diff": (f"{{{{[[{ka}]] - [[{ka + 1}]]}}}}", ne(f"v{ka}", f"v{ka + 1}")),
+                      "neg-const": (f"{{{{[[{ka}]] - [[{ka + 1}]] - 1000}}}}", ne(minus(f"v{ka}", f"v{ka + 1}"), "1000.0")),
+                      "sum": (f"[[{ka}]] + [[{ka + 1}]]", ne(plus(f"v{ka}", f"v{ka + 1}"), "0.0"))}[tform]
+        d0 = f'<svg>{pre}<if test="{ttxt}">{body}</if>{post}</svg>'
         d1 = f"<svg>{pre}{body}{post}</svg>"
         d2 = f"<svg>{pre}{post}</svg>"
 
@@ -86,10 +96,9 @@ def build(td, wrong=False):
                 return [Obl("transform-ok", FAIL, ground=True, note=str([d["msg"][:80] for d in r.docs]))]
             o0, o1, o2 = (Out(d["output"]) for d in r.docs)
             taken = len(o0.all) == len(o1.all)
-            test = gt(f"v{ka}", f"v{ka + 1}")
             obls = [Obl("rendered-iff-test-nonzero", not_(test) if taken else test)]
             return obls + compare_outputs(o0, o1 if taken else o2, wrong=wrong)
-        return Template(f"if/{td['body']}", [d0, d1, d2], vars_, check_if, family="if", role="C16/if", cap=4)
+        return Template(f"if/{td['body']}/{tform}", [d0, d1, d2], vars_, check_if, family="if", role="C16/if", cap=4)
     bfn = bodies()[td["body"]]
     kb = alloc([])
     body, bvars, pre = bfn(len(vars_))
@@ -124,6 +133,18 @@ def build(td, wrong=False):
         vars_[ks] = (0, *V)
         vars_[ks + 1] = (1, 0, 16, 1)
         vars_[ks + 2] = (k if fam == "while" else max(k, 1), *V)
+    elif fam == "count-var":
+        # the count is an expression over a variable that the body itself changes: it is evaluated once, on entry
+        n = td["n"]
+        loop = f'<var n="{n}" i="0"/><loop count="$n">{body}<var n="{{{{$n - 1}}}}" i="{{{{$i + 1}}}}"/></loop>'
+        un = f'<var n="{n}" i="0"/>' + (body + '<var n="{{$n - 1}}" i="{{$i + 1}}"/>') * n
+    elif fam == "while-arith":
+        # `while` repeats as long as its condition is NON-ZERO: a counter running up from a negative start to zero
+        k = td["k"]
+        ks = alloc([(2, 0, 8, 0)])
+        inc = '<var i="{{$i + 1}}" c="{{$c + 1}}"/>'
+        loop = f'<var i="{-k}" c="0"/><loop while="$c - {k}">{body}{inc}</loop>'
+        un = f'<var i="{-k}" c="0"/>' + (body + inc) * k
     elif fam == "for":
         n = td["n"]
         ks = alloc([(3 + 5 * j, *V) for j in range(n)])
